@@ -1,4 +1,4 @@
-use crossbeam_epoch::{pin as epoch_pin, Atomic, Guard, Owned, Shared};
+use crossbeam_epoch::{pin as epoch_pin, Atomic, Owned, Shared};
 use crossbeam_utils::Backoff;
 use std::{
     cell::UnsafeCell,
@@ -105,21 +105,6 @@ impl<T> Block<T> {
         // `slots` is an array of `MaybeUninit`, which is zero init safe
         // `next` is meant to start as "null", where the pointer (`AtomicUsize`) is zero
         unsafe { MaybeUninit::zeroed().assume_init() }
-    }
-
-    // Whether or not any write to the next block, if it exists, has completed.
-    pub(crate) fn next_has_completed_writes(&self, guard: &Guard) -> bool {
-        #[cfg(metrics_verif)]
-        verif_yield(507);
-        let tail = self.next.load(Ordering::Acquire, guard);
-        if tail.is_null() {
-            return false;
-        }
-
-        let tail_block = unsafe { tail.deref() };
-        #[cfg(metrics_verif)]
-        verif_yield(508);
-        tail_block.has_completed_writes()
     }
 
     /// Whether or not any write to this block has completed.
@@ -269,17 +254,21 @@ impl<T> AtomicBucket<T> {
         let guard = &epoch_pin();
         #[cfg(metrics_verif)]
         verif_yield(520);
-        let tail = self.tail.load(Ordering::Acquire, guard);
-        if tail.is_null() {
-            return true;
+        let mut block_ptr = self.tail.load(Ordering::Acquire, guard);
+
+        // The current tail may simply be a fresh block that has not been written to yet, and it
+        // can sit in front of any number of blocks whose slots have all been claimed but not
+        // written yet, so we walk the chain until we find a completed write or run out of blocks.
+        while !block_ptr.is_null() {
+            let block = unsafe { block_ptr.deref() };
+            if block.has_completed_writes() {
+                return false;
+            }
+
+            block_ptr = block.next.load(Ordering::Acquire, guard);
         }
 
-        // We have to check the next block of our tail in case the current tail is simply a fresh
-        // block that has not been written to yet.
-        let tail_block = unsafe { tail.deref() };
-        #[cfg(metrics_verif)]
-        verif_yield(521);
-        !tail_block.has_completed_writes() && !tail_block.next_has_completed_writes(guard)
+        true
     }
 
     /// Pushes an element into the bucket.
